@@ -631,6 +631,47 @@ def run (j : Json) : Except String Json := do
         ("SS", jRat (rhoSS adj rho)), ("SI", jRat (rhoSI adj rho)), ("II", jRat (rhoII adj rho))])])
 end DrvIC
 
+/-! ### ODE right-hand sides (C06–C08) -/
+namespace DrvODE
+open ODE
+
+def vec (l : List Rat) : Nat → Rat := fun k => l.getD k 0
+def out (K : Nat) (f : Nat → Rat) : List Rat := (List.range K).map f
+
+def run (j : Json) : Except String Json := do
+  let model ← getStr (← fld j "model")
+  let pr ← getList getRat (← fld j "p")          -- scalar parameters
+  let vs ← getList (getList getRat) (← fld j "v") -- vector parameters / state blocks
+  let p := fun (i : Nat) => pr.getD i 0
+  let v := fun (i : Nat) => vec (vs.getD i [])
+  let K := (vs.getD 0 []).length
+  let res : List Rat ← (match model with
+    | "sisHomMF" => let r := sisHomMF (p 0) (p 1) (p 2) (p 3) (p 4); pure [r.1, r.2]
+    | "sirHomMF" => let r := sirHomMF (p 0) (p 1) (p 2) (p 3) (p 4); pure [r.1, r.2]
+    | "sisHomPW" => let r := sisHomPW (p 0) (p 1) (p 2) (p 3) (p 4) (p 5) (p 6); pure [r.1, r.2.1, r.2.2]
+    | "sirHomPW" => let r := sirHomPW (p 0) (p 1) (p 2) (p 3) (p 4) (p 5) (p 6); pure [r.1, r.2.1, r.2.2.1, r.2.2.2]
+    | "sisHetMF" => let r := sisHetMF K (p 0) (p 1) (v 0) (v 1); pure (out K r.1 ++ out K r.2)
+    | "sirHetMF" => let r := sirHetMF K (p 0) (p 1) (v 0) (v 1) (p 2) (v 2); pure (r.1 :: out K r.2)
+    | "sisCompactPW" => let r := sisCompactPW K (p 0) (p 1) (p 2) (v 0) (v 1) (p 3) (p 4); pure (out K r.1 ++ [r.2.1, r.2.2])
+    | "sirCompactPW" => let r := sirCompactPW K (p 0) (p 1) (p 2) (v 0) (p 3) (p 4) (p 5); pure (out K r.1 ++ [r.2.1, r.2.2.1, r.2.2.2])
+    | "sirSuperCompactPW" => let r := sirSuperCompactPW K (v 0) (p 0) (p 1) (p 2) (p 3) (p 4) (p 5) (p 6); pure [r.1, r.2.1, r.2.2.1, r.2.2.2]
+    | "sisSuperCompactPW" => let r := sisSuperCompactPW (p 0) (p 1) (p 2) (p 3) (p 4) (p 5) (p 6) (p 7) (p 8) (p 9); pure [r.1, r.2.1, r.2.2.1, r.2.2.2]
+    | "ebcm" => let r := ebcm K (v 0) (p 0) (p 1) (p 2) (p 3) (p 4) (p 5) (p 6); pure [r.1, r.2]
+    | "sirCompactED" => let r := sirCompactED K (p 0) (p 1) (p 2) (v 0) (p 3) (p 4); pure (out K r.1 ++ [r.2.1, r.2.2])
+    | "sisIndividual" | "sirIndividual" => do
+      let adj ← getList (getList getNat) (← fld j "adj")
+      let trl ← getList (getList getRat) (← fld j "tr")    -- tr[i][pos] for the pos-th neighbour of i
+      let n := adj.length
+      let nbrs := listFn adj []
+      let tr : Nat → Nat → Rat := fun i jn => match (nbrs i).idxOf? jn with
+        | some pos => (trl.getD i []).getD pos 0
+        | none => 0
+      if model == "sisIndividual" then pure (out n (sisIndividual nbrs tr (v 0) (v 1)))
+      else let r := sirIndividual nbrs tr (v 0) (v 1) (v 2); pure (out n r.1 ++ out n r.2)
+    | _ => .error s!"unknown model {model}")
+  pure (Json.mkObj [("ok", Json.bool true), ("dy", jArr jRat res)])
+end DrvODE
+
 def dispatch (j : Json) : Except String Json := do
   let op ← getStr (← fld j "op")
   match op with
@@ -651,6 +692,7 @@ def dispatch (j : Json) : Except String Json := do
   | "simple" => DrvSC.run j
   | "perc" => DrvPerc.run j
   | "ode_ic" => DrvIC.run j
+  | "rhs" => DrvODE.run j
   | "simple_rates" => DrvSC.rates j
   | "reedfrost" => DrvD.reedfrost j
   | _ => .error s!"unknown op {op}"
